@@ -13,6 +13,8 @@ type verifReader struct {
 	pos      int
 	eofReads int
 	eofLimit int // 0 = unchecked; otherwise reading past the end more often than this is a violation (non-termination)
+	// shortReads: Read may return any 1 <= k <= min(len(dst), rest) bytes (how the stream is chunked by the network)
+	shortReads bool
 }
 
 func (r *verifReader) atEOF() {
@@ -37,7 +39,14 @@ func (r *verifReader) Read(dst []byte) (int, error) {
 		r.atEOF()
 		return 0, io.EOF
 	}
-	n := copy(dst, r.buf[r.pos:])
+	avail := len(r.buf) - r.pos
+	if avail > len(dst) {
+		avail = len(dst)
+	}
+	if r.shortReads && avail > 1 {
+		avail = 1 + vsymChoice("shortRead", avail)
+	}
+	n := copy(dst[:avail], r.buf[r.pos:])
 	r.pos += n
 	return n, nil
 }
